@@ -63,6 +63,10 @@ def main(argv=None):
     seed = int(os.environ.get('VERIF_SEED', '0') or 0)
     tier = a.tier if a.tier in ('quick', 'thorough') else 'quick'
 
+    if tier == 'thorough' and 'SYMX_CVC5' not in os.environ:
+        os.environ['SYMX_CVC5'] = '1'
+    if os.environ.get('SYMX_CVC5') == '0':
+        del os.environ['SYMX_CVC5']
     from . import transform, explore, core
     sys.path.insert(0, VERIF)
     transform.install({'pico8': REPO, 'props': VERIF, 'ref': VERIF})
@@ -124,6 +128,10 @@ def main(argv=None):
             total['solver_s'] += s['solver_s']
             total['realisations'] += s['realisations']
             total['infeasible'] += s['infeasible']
+            total['cvc5_checked'] = total.get('cvc5_checked', 0) + s.get(
+                'cvc5_checked', 0)
+            total['cvc5_other'] = total.get('cvc5_other', 0) + s.get(
+                'cvc5_other', 0)
             bounds.append({'harness': h.name, 'params': {
                 k: v for k, v in params.items()}, 'leaves': s['leaves'],
                 'complete': s['complete'], 'wall_s': round(s['wall'], 2),
@@ -249,6 +257,13 @@ def _write_evidence(prop, tier, seed, mod, runs, total, samples, bounds,
         'realisations': total['realisations'],
         'infeasible_paths_cut': total['infeasible'],
         'known_findings_demonstrated': sorted(known_seen.keys()),
+        'cvc5_crosscheck': {
+            'closing_queries_rechecked': total.get('cvc5_checked', 0),
+            'agreed_unsat': total.get('cvc5_checked', 0) - total.get(
+                'cvc5_other', 0),
+            'cvc5_unknown_or_error': total.get('cvc5_other', 0),
+            'note': 'sampled unsat closing queries re-decided by cvc5 on '
+                    'the SMT-LIB2 text exported by z3 (thorough tier)'},
         'problems': problems,
         'solver': 'z3 ' + __import__('z3').get_version_string(),
     }
